@@ -30,6 +30,8 @@ func RegisterAll() {
 	run.Register(&c06{})
 	run.Register(&c07{})
 	run.Register(&c08{})
+	run.Register(&c09{})
+	run.Register(&c10{})
 	run.Register(&c12{})
 }
 
